@@ -297,7 +297,7 @@ fn absent(ctx: &mut Ctx) {
 fn explore(ctx: &mut Ctx) {
     vcore::model::self_check().expect("reference model self-check failed");
     let thorough = ctx.tier.is_thorough();
-    let n = ctx.tier.pick(7, 9);
+    let n = ctx.tier.pick(7, 11);
     let mut all: Vec<BitsDesc> = Vec::new();
     for len in 0..=n {
         for word in 0..(1u64 << len) {
@@ -322,7 +322,7 @@ fn explore(ctx: &mut Ctx) {
         }
     }
     // Sparse vectors from support-free files at every admissible low width (small) and a few widths (large).
-    let sn = ctx.tier.pick(6, 8);
+    let sn = ctx.tier.pick(6, 10);
     for len in 0..=sn {
         for word in 0..(1u64 << len) {
             let bits = BitsDesc::Word { len, word };
